@@ -26,3 +26,4 @@ func vParam(name string, def int) int
 func vGoID() int
 func vFuncID(f any) uintptr
 func vRank(s string) int
+func vDocWithout(tag string, absent string) []byte
